@@ -445,6 +445,18 @@ def _mpu_append_chunks_op(
 ):
     # expect 1 MPUChunk per partition
     (mpu,) = mpus
+    # this MPUChunk is part of the graph: fill a copy, so that computing the
+    # same graph again does not start from the data of the previous run
+    mpu = MPUChunk(
+        mpu.nextPartId,
+        mpu.write_credits,
+        bytearray(mpu.data) if mpu.observed else None,
+        bytearray(mpu.left_data),
+        list(mpu.parts),
+        list(mpu.observed),
+        mpu.is_final,
+        mpu.lhs_keep,
+    )
     # more chunks may follow: do not spend the last write credit of the
     # final section before all of its chunks were seen
     is_final, mpu.is_final = mpu.is_final, False
